@@ -2,6 +2,7 @@
 # MANIFEST.setup_cmd: build the framework from files on disk only (offline).
 set -e
 cd "$(dirname "$0")"
+HERE=$(pwd)
 export CARGO_NET_OFFLINE=true
 for g in $(python3 -c "import sys; sys.path.insert(0,'tools'); import props; print(' '.join(props.GENERATORS))"); do
   python3 tools/$g
@@ -11,6 +12,6 @@ MODS=$(python3 -c "import sys; sys.path.insert(0,'tools'); import props; print('
 cp -n /repo/Cargo.lock harness/Cargo.lock 2>/dev/null || true
 (cd harness && cargo build --release --offline)
 # the real binary (C12: plain; C17: with the headless hook), built from /repo's working tree
-(cd /repo && cargo build --release --offline -p emulator-2a --target-dir /verif/harness/target-bin)
-(cd /repo && cargo build --release --offline -p emulator-2a --features verif-hooks --target-dir /verif/harness/target-bin-hooks)
+(cd /repo && cargo build --release --offline -p emulator-2a --target-dir "$HERE/harness/target-bin")
+(cd /repo && cargo build --release --offline -p emulator-2a --features verif-hooks --target-dir "$HERE/harness/target-bin-hooks")
 echo "setup ok"
